@@ -91,6 +91,11 @@ bool tActisenseReader::CheckMessage(tN2kMsg &N2kMsg) {
      return false; // Too long data
    }
 
+   if ( i+N2kMsg.DataLen!=MsgWritePos-1 ) {
+     N2kMsg.Clear();
+     return false; // Data length does not match frame length
+   }
+
    for (int j=0; i<MsgWritePos-1; i++, j++) N2kMsg.Data[j]=MsgBuf[i];
 
    return true;
